@@ -41,6 +41,8 @@ def run(ctx: Ctx) -> Result:
         root = V.rbytes(rng, 32); rootk = bytes(SigningKey(root).verify_key)
         flags = rng.choice(['00', '00', '01', '80', '%02x' % (1 << rng.randrange(8))])
         sf = {'sigfield1': V.rbytes(rng, 5), 'sigfield2': V.rbytes(rng, 7)}
+        if it % 3 == 1: sf = G.shuffled(rng, {**sf, f'sigfield{rng.randrange(3, 9)}': V.rbytes(rng, 4)})      # a dict's insertion order is not part of the embedder's contract
+        if it % 3 == 2: sf = {'sigfield2': sf['sigfield2'], 'sigfield1': sf['sigfield1']}
         lock1 = try_build(T.make_delegate_key_lock, rootk, flags); lockc = try_build(T.make_delegate_key_chain_lock, rootk, flags)
         B.build(f'BUILD2 delegate_key_lock {rootk.hex()} {int(flags, 16)}', hexof(lock1))
         B.build(f'BUILD2 delegate_key_chain_lock {rootk.hex()} {int(flags, 16)}', hexof(lockc))
@@ -59,7 +61,7 @@ def run(ctx: Ctx) -> Result:
             inp = {'root_seed': root.hex(), 'chain_length': n, 'begin': begin, 'end': end, 'may_delegate': list(mays), 'flags': flags}
             for t, nw in ((begin - 1, now), (begin, now), (end - 1, now), (end, now), (now, now), (now + 59, now) if end > now + 59 else (now, now), (end - 1, end - 1 - 60), (end - 1, end - 1 - 61), (end - 1, end - 1 - 59)):
                 if nw < 0: continue
-                cache = {**sf, 'timestamp': t}
+                cache = {**dict(reversed(list(sf.items()))), 'timestamp': t}       # the verifier's dict need not have the signer's insertion order
                 want = begin <= t < end and t - nw < 60 and all(mays[:-1])
                 ok, v = B.auth([wit.bytes, lockc.bytes], cache, now=nw)
                 if ok != want:
